@@ -39,7 +39,8 @@ pub fn cases(thorough: bool, seed: u64) -> Vec<Params> {
                         out.push(Params { n, t, ids: ids.clone(), subset: s.clone(), variant: V_TAMPER, aux: kind, seed });
                     }
                     // the same commitments filed under other identifiers (the "exact commitment set" includes who committed)
-                    for kind in [1000u64, 1001, 1002] {
+                    // ... and seeds that differ only in length (a byte appended, the last byte dropped, a zero appended)
+                    for kind in [1000u64, 1001, 1002, 1003, 1004, 1005] {
                         out.push(Params { n, t, ids: ids.clone(), subset: s.clone(), variant: V_TAMPER, aux: kind, seed });
                     }
                     for mode in 0..3u64 {
@@ -165,6 +166,23 @@ pub fn run<C: RandomizedCiphersuite, L: Lab<C>>(lab: &mut L, p: &Params) {
                     m.insert(extra, cc);
                     my_pkg = fc::SigningPackage::new(m, &msg);
                     tampered = Some("a participant added to the commitment set".to_string());
+                }
+            } else if kind >= 1003 {
+                if let Some(sd) = &seed {
+                    let mut other = sd.clone();
+                    match kind {
+                        1003 => other.push(0x42),
+                        1004 => {
+                            other.pop();
+                        }
+                        _ => other.push(0),
+                    }
+                    my_seed = Some(other);
+                    tampered = Some(match kind {
+                        1003 => "the seed with one more byte",
+                        1004 => "the seed without its last byte",
+                        _ => "the seed with a zero byte appended",
+                    }.to_string());
                 }
             } else if kind >= 1000 {
                 // no commitment value changes; only the identifiers they are filed under
